@@ -73,6 +73,25 @@ add("C14",
     "excluded from the exact comparison and counted); a zero generation speed is an error outcome excluded by the statements. Axiom-free.",
     "Rocq/Coq proof (loop invariants against an arbitrary oracle) + translator for constants + differential correspondence")
 
+add("C12",
+    "Coq transition system of one non-blocking ParallelArchipelago.evolve call over n >= 1 ranks (one transition per communicator "
+    "call or evolve slice: rank 0's loop, gather, exit notifications, barrier, final drain; the helpers' report/probe/evolve "
+    "cycle), schedules = arbitrary lists of ranks. Proved for every n, sync frequency, target, initial ages and schedule: a "
+    "13-clause protocol invariant holds in every reachable state; no reachable state is stuck (deadlock freedom); in the final "
+    "state no AGE_UPDATE message is pending and no EXIT_NOTIFICATION anywhere (clean exit, so the next call starts clean); the "
+    "island ages sum to at least n*(generational_age + num_steps); every reported or in-flight age is a lower bound of the "
+    "sender's age. PARTIAL: liveness under fair non-flooding schedules is not proved (progress only). Tie: the real "
+    "ParallelArchipelago (real Island, hall of fame, migration, closing collectives) runs on a deterministic stand-in for mpi4py "
+    "(tools/vendor/mpi4py: threads + choice-driven scheduler, buffered isend); the call sequence of every non-blocking call is "
+    "replayed through the model (same calls in the same order, same final ages, empty mailboxes); oracle on the real run: no "
+    "deadlock, return on all ranks, no stale message, age targets (blocking: exactly n per island), all ranks agree on best "
+    "fitness / evaluation count / age / hall of fame, best = min over islands.",
+    "Trusted: Coq kernel + vm_compute; the mpi4py stand-in (mpi4py itself is not installed: real MPI progress semantics are not "
+    "exercised; buffered delivery is the property's premise); schedules used by the harness give every generation slice 4n+2 "
+    "scheduler steps (non-flooding premise). F13 (repeated non-blocking calls advance the mean age by fewer than n generations "
+    "when helpers are ahead) is a known finding. Axiom-free.",
+    "Rocq/Coq proof (invariant for all ranks and schedules) + trace correspondence on a deterministic MPI stand-in")
+
 add("C13",
     "PARTIAL. Clause (a), rotation and crash-safety, is a set of Coq theorems over a model of _update_checkpoints / "
     "_remove_stale_checkpoint / dump_to_file as atomic file steps (open tmp, finish, rename, remove): after the first checkpoint "
